@@ -15,6 +15,7 @@ type Profile struct {
 	LockEvery   int
 	StatsEvery  int
 	MapGetEvery int
+	SweepEvery  int
 	MinOps      int
 	MaxOps      int
 	MaxEntities int
@@ -303,6 +304,13 @@ func (g *Gen) Next() Op {
 		return Op{K: KGC, N: g.R.Intn(3)}
 	case KMisuse:
 		return g.genMisuse()
+	case KRegistry:
+		m := []string{"fill", "fill", "overflow", "locked", "stable", "stable"}[g.R.Intn(6)]
+		n := g.R.Intn(1000)
+		if m == "fill" && g.R.Chance(0.3) {
+			n = -1 // fill up to the maximum
+		}
+		return Op{K: KRegistry, M: m, N: n}
 	case KMatrix:
 		return Op{K: KMatrix, E: g.R.Intn(1000)}
 	case KQMisuse:
